@@ -442,7 +442,7 @@ package encoder
 //@ func appendHTMLString(buf, s) (res)
 //@   props C17 C03
 //@   requires apartS(buf, s)
-//@   swar needEscapeHTML
+//@   swar needEscapeHTML ascii
 //@   nomerge
 //@   ensures len(res) >= len(buf) + 2 && res[len(buf)] == '"' && res[len(res)-1] == '"'
 //@   ensures forall k :: 0 <= k && k < len(buf) ==> res[k] == old(buf[k])
@@ -450,11 +450,13 @@ package encoder
 //@   ensures forall k :: 0 <= k && k < len(res) - len(buf) ==> res[len(buf)+k] >= 32 && res[len(buf)+k] != '<' && res[len(buf)+k] != '>' && res[len(buf)+k] != '&'
 //@   assigns M
 //@   loop 1: invariant -1 <= rangeindex && rangeindex < len(chunks) && len(chunks) == len(s) / 8 && ptrOf(chunks) == ptrOf(s)
-//@   loop 1: invariant forall k :: 0 <= k && k < 8 * (rangeindex + 1) ==> !unsafeHTML(s[k])
+//@   loop 1: invariant forall k :: 0 <= k && k < 8 * (rangeindex + 1) ==> !unsafeHTML(s[k]) && s[k] < 128
 //@   loop 2: invariant 8 * len(chunks) <= i && i <= len(s)
-//@   loop 2: invariant forall k :: 0 <= k && k < i ==> !unsafeHTML(s[k])
+//@   loop 2: invariant forall k :: 0 <= k && k < i ==> !unsafeHTML(s[k]) && s[k] != 226
 //@   loop 3: invariant 0 <= i && i <= j && j <= len(s) && len(buf) > old(len(buf)) && apartS(buf, s)
 //@   loop 3: invariant forall k :: 0 <= k && k < j - i ==> !unsafeHTML(s[i+k])
+// raw run: no position of the run starts U+2028 / U+2029 (they are escaped with HTML escaping, normalisation or not)
+//@   loop 3: invariant forall k :: 0 <= k && k < j - i ==> !lineSepAt(s, i+k)
 //@   loop 3: invariant forall k :: 0 <= k && k < old(len(buf)) ==> buf[k] == old(buf[k])
 //@   loop 3: invariant buf[old(len(buf))] == '"'
 //@   loop 3: invariant forall k :: 0 <= k && k < len(buf) - old(len(buf)) ==> buf[old(len(buf))+k] >= 32 && buf[old(len(buf))+k] != '<' && buf[old(len(buf))+k] != '>' && buf[old(len(buf))+k] != '&'
